@@ -29,6 +29,8 @@ class AbiWorld(ObjWorld):
     def __init__(self, ctx, modules=None, real_classes=()):
         self.ctx = ctx
         super().__init__(ctx.model, ABI_MODULES if modules is None else modules, real_classes, where="abi-world")
+        # the NamedTuple base class as an object user classes are compared with
+        self.consts.setdefault("NamedTuple", Sym("class:NamedTuple", attrs={"classname": "NamedTuple", "__module__": "pyteal.abi", "__qualname__": "NamedTuple"}))
 
     def spec(self, s) -> Sym:
         """the repository's TypeSpec object for an ARC-4 shape"""
@@ -44,6 +46,12 @@ class AbiWorld(ObjWorld):
             return self.construct(cname, [self.spec(s[1])], {})
         if k == "tuple":
             return self.construct(cname, [self.spec(m) for m in s[1]], {})
+        if k == "ntuple":
+            # a NamedTuple class; classes made by one factory share module and qualified name but are different classes
+            key = ("ntuple-class", s[1], repr(s[2]))
+            if key not in self.instances:
+                self.instances[key] = Sym(f"class:{s[1]}", attrs={"__module__": "user_module", "__qualname__": f"factory.<locals>.{s[1].rstrip('0123456789')}", "__name__": s[1], "classname": s[1]})
+            return self.construct("NamedTupleTypeSpec", [self.instances[key]] + [self.spec(m) for m in s[2]], {})
         raise AnalysisError(f"shape {s} not constructible")
 
 
